@@ -47,7 +47,8 @@ def history(ctx, fedjax, rng, nrounds, window, nclusters, allow_empty_domain, ba
     agn, agn_init, _ = algs.build(fedjax, 'agnostic_fed_avg', case, window=window, domain_lr=rng.choice([0.125, 0.5]), init_window=[1.0, 1.0])
     apfl, apfl_init, _ = algs.build(fedjax, 'apfl', case, coef=rng.choice([0.0, 0.5, 1.0]), copt=fedjax.optimizers.sgd(rng.choice([0.25, 1.0, 4.0])))
     # (a server optimizer with a step counter: an applied update is visible in the state even when the mean delta is zero)
-    hyp, hyp_init, _ = algs.build(fedjax, 'hyp_cluster', case, clusters=nclusters, offsets=offs, sopt=fedjax.optimizers.adam(0.125))
+    hyp_reg = 0.5 if allow_empty_domain else 0.0       # every second history: an L2 regulariser, part of "average loss"
+    hyp, hyp_init, _ = algs.build(fedjax, 'hyp_cluster', case, clusters=nclusters, offsets=offs, sopt=fedjax.optimizers.adam(0.125), reg=hyp_reg)
   p0 = island.params_tree(inst['init'])
   s_agn, s_apfl, s_hyp = agn_init(p0), apfl_init(p0), hyp_init(p0)
   events = []
@@ -113,7 +114,7 @@ def history(ctx, fedjax, rng, nrounds, window, nclusters, allow_empty_domain, ba
       x = np.array(data[c - 1], np.float64).reshape(-1, 2)
       if len(x) == 0:
         continue
-      losses = [float(np.mean(0.5 * np.sum((cp[None, :] - x) ** 2, axis=1))) for cp in cparams]
+      losses = [float(np.mean(0.5 * np.sum((cp[None, :] - x) ** 2, axis=1))) + 0.5 * hyp_reg * float(np.sum(cp ** 2)) for cp in cparams]
       if losses[kk - 1] > min(losses) + 1e-4 * (1 + abs(min(losses))):
         ok = False
         notes.append(f'round {r + 1}: client {c} assigned to cluster {kk} with loss {losses[kk - 1]} but the minimum is {min(losses)}')
@@ -181,16 +182,31 @@ def run(ctx):
   # ---- HypCluster, exactly: every cluster must evolve as FedAvg restricted to the clients assigned to it (TLC oracle)
   hyp_cases = []
   attempts = 0
-  while len(hyp_cases) < (14 if big else 4) and attempts < 200:
+  # a fixed instance first: clients listed with 1, 3 and 2 batches (a backend that re-orders them by batch count must still
+  # credit every delta to its own client's cluster with its own weight); clients 1 and 3 sit at cluster 1, client 2 at cluster 2
+  fxh = {'bs': 2, 'epochs': 1, 'steps': None, 'drop': False, 'seed': 5, 'skip': False}
+  fxd = [[[0, 0]], [[2, 2], [3, 2], [2, 3], [2, 2], [1, 2]], [[0, 1], [1, 0], [0, 0]]]
+  fx = {'data': fxd, 'init': [island.R(0), island.R(0)], 'copt': island.opt_spec('sgd', 0.25), 'sopt': island.opt_spec('sgd', 1), 'mu': island.R(0), 'rounds': 2,
+        'cohorts': [[1, 2, 3], [3, 1, 2]]}
+  fx['stream'] = island.real_streams(fedjax, island.datasets(fedjax, fxd), island.hparams(fedjax, fxh))
+  crafted = [{'inst': fx, 'h': fxh, 'exact': False, 'fixed': True}]
+  while len(hyp_cases) < (14 if big else 5) and attempts < 200:
     attempts += 1
-    c = island.random_instance(rng, fedjax, leaves=2, dyadic=rng.random() < .6, allow_momentum=False, max_clients=5, rounds=rng.choice([2, 3, 4]))
+    c = crafted.pop() if crafted else island.random_instance(rng, fedjax, leaves=2, dyadic=rng.random() < .6, allow_momentum=False, max_clients=5, rounds=rng.choice([2, 3, 4]))
     if c is None or sum(1 for d in c['inst']['data'] if d) < 2:
       continue
     # (a stateful server optimizer makes "a cluster without examples is left untouched" observable: its momentum must not move it)
     c['inst']['sopt'] = island.opt_spec('sgd', rng.choice([1, 0.5])) if len(hyp_cases) % 2 == 0 else island.opt_spec('mom', rng.choice([1, 0.5]), 0.5)
     nk = rng.choice([2, 3])
     offs = [0.0, 2.0, -2.0][:nk]
-    rec = algs.run_rounds(fedjax, 'hyp_cluster', c, clusters=nk, offsets=offs)
+    if c.get('fixed'):
+      nk, offs = 2, [0.0, 2.0]
+    # every for_each_client backend (pmap re-orders the cohort by batch count), with and without an L2 regulariser
+    hbackend = 'pmap' if c.get('fixed') else (None, 'pmap', 'debug')[len(hyp_cases) % 3]
+    hreg = 0.25 if len(hyp_cases) % 2 else 0.0
+    if hreg:
+      c['inst']['reg'] = island.R(hreg)
+    rec = algs.run_rounds(fedjax, 'hyp_cluster', c, clusters=nk, offsets=offs, backend=hbackend, **({'reg': hreg} if hreg else {}))
     if rec['error']:
       ctx.violation(f'hyp-exact:exception', f'hyp_cluster: {rec["error"]} on {c["inst"]}', replay={'instance': c['inst']})
       continue
